@@ -461,6 +461,13 @@ def check_C13(tier, replay=None):
         for _ in range(npairs):
             m1, m2 = rnd.choice(muts), rnd.choice(muts)
             add(b, [dict(m1, file=1), dict(m2, file=rnd.randint(1, nfiles(b)))], b["label"] + "/pair")
+    # malformed inputs whose WriterError variant the model names (Robust!ErrorOf): matched as drift
+    errcases = [p for t, p in tagged if t == "ERRCASE"]
+    for ec in errcases:
+        b = next((x for x in bases if x["label"] == ec["base"]), None)
+        if b:
+            add(b, [ec["mut"]], "errclass/" + ec["class"])
+            cases[-1]["expect_err"] = ec["err"]
     # the repository's real schemas, mutated
     per_doc = 40 if tier == "quick" else 600
     for cc in corpus_cases("C13", "robust"):
@@ -480,6 +487,8 @@ def check_C13(tier, replay=None):
     tcfg = cfg("TraceSpec", {"Dev": devs, "Features": FEATURES}, post="Accepted")
     viol, known, stale, drift = trace_run(R, "Trace_C13", tcfg, traces, "T_C13")
     R.viol = viol
+    R.drift += len(drift)
+    R.extra["error_variant_drift"] = drift[:10]
     for k in known:
         for d in (k.get("devs") or ["?"]):
             R.known.setdefault(d, k)
